@@ -178,6 +178,23 @@ def f_gbox(tag):
     return gbx.GeoBox((Int(f"{tag}_ny", 1), Int(f"{tag}_nx", 1)), A, pick_crs(tag))
 
 
+TURNS = [(F(0), F(10), F(10), F(0)), (F(0), F(-10), F(10), F(0)), (F(0), F(10), F(-10), F(0)), (F(10), F(5), F(0), F(-10)), (F(10), F(-5), F(0), F(-10))]
+
+
+def f_gbox_turned(tag):
+    """grids that are not north-up: transposed, turned by a quarter either way, sheared either way
+    (linear part from a list, chosen per value; origin and shape symbolic) -- different pixel grids
+    that can share shape, pixel size and bounding box"""
+    from affine import Affine
+
+    import odc.geo.geobox as gbx
+
+    k = Int(f"{tag}_turn", 0, len(TURNS) - 1).__index__()
+    a, b, d, e = TURNS[k]
+    A = Affine(rconst(a) if a else 0.0, rconst(b) if b else 0.0, Real(f"{tag}_c"), rconst(d) if d else 0.0, rconst(e) if e else 0.0, Real(f"{tag}_f"))
+    return gbx.GeoBox((Int(f"{tag}_ny", 1), Int(f"{tag}_nx", 1)), A, "epsg:3857")
+
+
 def f_gbt(tag):
     import odc.geo.geobox as gbx
 
@@ -251,6 +268,7 @@ TYPES = {
     "Shape2d": (f_shape, False, False),
     "BoundingBox": (f_bbox, True, False),
     "GeoBox": (f_gbox, True, True),
+    "GeoBox[turned]": (f_gbox_turned, True, True),
     "GeoboxTiles": (f_gbt, False, True),
     "GeoboxTiles[variable]": (f_gbt_var, False, True),
     "Bin1D": (f_bin, False, False),
